@@ -303,7 +303,7 @@ fn run_cont(a: &Args, limits: &Limits, symbolic: bool, initial: &[(String, i64)]
         case.remove("inputs");
         let (rep, desc) = match kind.as_str() {
             "fringe" => {
-                let ops = if a.num("fill", 0) > 0 { cont::fringe_fill_ops(seed, a.num("fill", 0) as usize, a.num("states", 3) as u8, a.num("depths", 2) as usize) } else { cont::fringe_ops(seed, a.num("len", 6) as usize, a.num("states", 2) as u8, a.num("depths", 2) as usize) };
+                let ops = if a.num("fill", 0) > 0 && a.flag("repush") { cont::fringe_repush_ops(seed, a.num("fill", 0) as usize, a.num("states", 3) as u8, a.num("depths", 2) as usize) } else if a.num("fill", 0) > 0 { cont::fringe_fill_ops(seed, a.num("fill", 0) as usize, a.num("states", 3) as u8, a.num("depths", 2) as usize) } else { cont::fringe_ops(seed, a.num("len", 6) as usize, a.num("states", 2) as u8, a.num("depths", 2) as usize) };
                 let nodup = a.get("fringe", "nodup") == "nodup";
                 (explore(limits, seed, symbolic, initial, &mut || cont::fringe_body(nodup, &ops)), format!("{:?}", ops))
             }
